@@ -93,7 +93,7 @@ def root_check(cfg, S, P, err, retries, max_ev, p, max_size, quantized, rec):
   slack = 64 * n * p * R.U32 * kappa + err * 2.0 ** -22 + 4e-7
   if quantized:
     off = P - np.diag(np.diag(P))
-    bucket = np.max(np.abs(off), axis=0) / 32767.0 if n > 1 else np.zeros(1)
+    bucket = np.maximum(np.max(np.abs(off), axis=0), 2.0 ** -23 * np.abs(np.diag(P))) / 32767.0 if n > 1 else np.zeros(1)
     dx = 0.5 * float(np.max(bucket)) * n
     slack += p * dx * np.linalg.norm(P, 2) ** (p - 1) * (lam[-1] + d) * 1.5
   rec.count("roots_residual_checked")
@@ -163,8 +163,12 @@ def check_case(case, rec):
             continue
           extra = 0.0
           if mode == "pmapq":
+            # int16 buckets are per column of the matrix minus its diagonal.  XLA may compute `x - diag(diag(x))` with the
+            # two x's rounded differently (FMA contraction in one fusion only), leaving one ulp of the diagonal entry in
+            # the column, so the bucket is max(max|off column|, ulp(diagonal entry)) / 32767
             off = val - np.diag(np.diag(val))
-            extra = (np.max(np.abs(off), axis=0) / 32767.0 * 0.52 + 1e-30)[None, :] * (1 - np.eye(val.shape[0]))
+            colmax = np.maximum(np.max(np.abs(off), axis=0), 2.0 ** -23 * np.abs(np.diag(val)))
+            extra = (colmax / 32767.0 * 0.52 + 1e-30)[None, :] * (1 - np.eye(val.shape[0]))
           ok, ratio = _within(b["stats"][i], val, bound, extra)
           rec.maxi("stats_err_over_bound", ratio)
           if not ok:
